@@ -59,8 +59,13 @@ def plain(inp):
 
 def config_args(cfg):
     if "dict_kib" in cfg:
-        return ["--lzma2=preset=%d,dict=%dKiB" % (cfg["preset"], cfg["dict_kib"])]
-    return ["-%d%s" % (cfg["preset"], "e" if cfg.get("extreme") else "")]
+        a = ["--lzma2=preset=%d,dict=%dKiB" % (cfg["preset"], cfg["dict_kib"])]
+    else:
+        a = ["-%d%s" % (cfg["preset"], "e" if cfg.get("extreme") else "")]
+    if cfg.get("filters1_dict_mib"):
+        # a second filter chain with a bigger dictionary, used from the second Block on: the limit applies to every chain
+        a += ["--filters1=lzma2:dict=%dMiB" % cfg["filters1_dict_mib"], "--block-list=32KiB,1:0"]
+    return a
 
 
 def thread_args(scn):
@@ -162,6 +167,8 @@ def oracle_compress(scn, S, d):
     rc, out, err, peak = run_xz(args, data, d, True)
     sufficient = L >= need_mib * MIB
     S.count("compress_T%d" % scn["threads"]); S.count("limit_" + scn["limit_sel"]); S.count("exit_%s" % rc)
+    if scn["config"].get("filters1_dict_mib"):
+        S.count("second_filter_chain_with_bigger_dictionary")
     if rc == 0:
         if peak is None:
             raise Inconclusive("no peak from the shim")
@@ -277,6 +284,9 @@ def scenarios(draw):
     else:
         cfg = {"preset": draw(st.sampled_from([0, 0, 1, 1, 2, 3, 4, 5, 6, 6, 7, 9])), "extreme": draw(st.integers(0, 5)) == 0}
     inp = {"kind": draw(st.sampled_from(["r", "d", "z"])), "len": draw(st.sampled_from([0, 1, 1000, 70000, 300000])), "seed": draw(st.integers(0, 50))}
+    if mode == "compress" and threads in (1, 2) and draw(st.integers(0, 4)) == 0:
+        cfg = {"preset": draw(st.sampled_from([0, 1, 2])), "filters1_dict_mib": draw(st.sampled_from([8, 16, 32]))}
+        inp["len"] = draw(st.sampled_from([70000, 300000]))
     scn = {"mode": mode, "threads": threads, "config": cfg, "input": inp, "no_adjust": draw(st.booleans()),
            "limit_sel": draw(st.sampled_from(["need", "need-1MiB", "need-1MiB", "need/2", "need*3/4", "need*3/4", "need*2", "need+1MiB", "tiny", "quarter", "huge"]))}
     if mode == "compress":
